@@ -28,6 +28,8 @@ const (
 	vpDone                 // done flag stored by Close
 	vpWritten              // service: request written, not yet registered in the ack queue
 	vpProcessed            // service: processor handled and committed one packet
+	vpBcastC               // ccond.Broadcast done (holding ccond.L)
+	vpBcastP               // pcond.Broadcast done (holding pcond.L)
 )
 
 // Exported copies of the point numbers for the harness.
@@ -49,6 +51,8 @@ const (
 	VerifDone      = vpDone
 	VerifWritten   = vpWritten
 	VerifProcessed = vpProcessed
+	VerifBcastC    = vpBcastC
+	VerifBcastP    = vpBcastP
 )
 
 type verifHooks struct {
